@@ -158,6 +158,9 @@ class StlAstParserVisitor(LtlAstParserVisitor, StlParserVisitor):
         # other bound, else the default unit
         b_unit = begin_unit or end_unit or self.unit
         e_unit = end_unit or begin_unit or self.unit
+        if begin < 0:
+            raise RTAMTException('The lower bound of the interval [{0}{1},{2}{3}] is negative'.format(
+                begin, begin_unit, end, end_unit))
         if begin * self.U[b_unit] > end * self.U[e_unit]:
             raise RTAMTException('The lower bound of the interval [{0}{1},{2}{3}] exceeds its upper bound'.format(
                 begin, begin_unit, end, end_unit))
